@@ -435,7 +435,7 @@ def guardxform_quantified(ctx, facts, key, rule="GUARDXFORM"):
         unknown = []
         for a in o["atoms"]:
             if a[0] in ("any", "all") and a[1] == ("Input", 1):
-                cs = boolsum.charset(boolsum.subst_formula(summ.summary(a[2]), {2: boolsum.CPARAM}), facts)
+                cs = boolsum.charset(boolsum.pred_formula(facts, summ, a[2]), facts)
                 if a[0] == "any" and a[3] is False:
                     allowed &= U & ~cs
                 elif a[0] == "all" and a[3] is True:
@@ -447,7 +447,7 @@ def guardxform_quantified(ctx, facts, key, rule="GUARDXFORM"):
                 if clo is None:
                     unknown.append("find closure")
                     continue
-                cs = boolsum.charset(boolsum.subst_formula(summ.summary(clo), {2: boolsum.CPARAM}), facts)
+                cs = boolsum.charset(boolsum.pred_formula(facts, summ, clo), facts)
                 if pos == "None":
                     allowed &= U & ~cs
             elif a[0] == "pred" and any(isinstance(x, tuple) and "Iterator::find" in str(x) for x in a[2]):
